@@ -196,3 +196,91 @@ pub fn failing_init_model(which: usize) -> String {
     t.join().unwrap();
     format!("fails={} {}", fails, sig)
 }
+
+// ------------------------------------------------------------------------------------------
+// hand-written failing models for C06: a destructor that runs during the unwind of the failing
+// thread waits for another thread (yield / park / spin lock). The failure must still reach the
+// caller of `loom::model` - no hang, no abort - and a later model must run normally.
+// ------------------------------------------------------------------------------------------
+
+pub const CUSTOM_C06: usize = 3;
+
+struct WaitsInDrop {
+    flag: loom::sync::Arc<loom::sync::atomic::AtomicUsize>,
+    how: usize,
+}
+
+impl Drop for WaitsInDrop {
+    fn drop(&mut self) {
+        use loom::sync::atomic::Ordering::{AcqRel, Acquire, Release};
+        match self.how {
+            0 => {
+                while self.flag.load(Acquire) == 0 {
+                    loom::thread::yield_now();
+                }
+            }
+            1 => {
+                while self.flag.load(Acquire) == 0 {
+                    loom::thread::park();
+                }
+            }
+            _ => {
+                // a spin lock (value 2 = held): take it and release it
+                while self.flag.swap(2, AcqRel) == 2 {
+                    loom::hint::spin_loop();
+                }
+                self.flag.store(1, Release);
+            }
+        }
+    }
+}
+
+/// Runs failing model `which` under `catch_unwind`, then a small passing model; returns
+/// (message of the first, iterations of the second).
+pub fn failing_drop_waits_model(which: usize) -> (String, usize) {
+    use loom::sync::atomic::{AtomicUsize, Ordering::*};
+    let r = std::panic::catch_unwind(move || {
+        loom::model(move || {
+            let flag = loom::sync::Arc::new(AtomicUsize::new(0));
+            let f2 = flag.clone();
+            let main = loom::thread::current();
+            let t = loom::thread::spawn(move || match which {
+                0 => f2.store(1, Release),
+                1 => {
+                    f2.store(1, Release);
+                    main.unpark();
+                }
+                _ => {
+                    // critical section of the spin lock
+                    while f2.swap(2, AcqRel) == 2 {
+                        loom::hint::spin_loop();
+                    }
+                    f2.store(1, Release);
+                }
+            });
+            let w = WaitsInDrop { flag: flag.clone(), how: which };
+            // the failure: for the spin lock only while the worker is inside its critical section
+            if which < 2 || flag.load(Acquire) == 2 {
+                panic!("VMC custom failure {}", which);
+            }
+            drop(w);
+            t.join().unwrap();
+        })
+    });
+    let msg = match r {
+        Ok(()) => "no failure".to_string(),
+        Err(p) => p.downcast_ref::<&str>().map(|s| s.to_string()).or_else(|| p.downcast_ref::<String>().cloned()).unwrap_or_default(),
+    };
+    // a later model in the same process
+    let n = std::sync::Arc::new(std::sync::atomic::AtomicUsize::new(0));
+    let n2 = n.clone();
+    loom::model(move || {
+        n2.fetch_add(1, std::sync::atomic::Ordering::SeqCst);
+        let a = loom::sync::Arc::new(AtomicUsize::new(0));
+        let a2 = a.clone();
+        let t = loom::thread::spawn(move || a2.fetch_add(1, SeqCst));
+        a.fetch_add(1, SeqCst);
+        t.join().unwrap();
+    });
+    (msg, n.load(std::sync::atomic::Ordering::SeqCst))
+}
